@@ -301,9 +301,9 @@ CreateSFResult(hs, dk, R, F, S) ==
 (* verify (whole folder / -sf) and diff                                    *)
 (***************************************************************************)
 \* the lookup path of a file goes one step back through previousPath, using the records of the
-\* *root* history only (commands.py l.632-637)
+\* history the file belongs to (commands.py verify_entire_folder / diff_entire_folder_against_full_history)
 LookupPath(hs, R, h, rp) ==
-  LET gens == GensOf(hs, R)
+  LET gens == GensOf(hs, h)
       RECURSIVE G(_)
       G(i) == IF i > Len(gens) THEN rp
               ELSE IF rp \in DOMAIN gens[i].files
